@@ -222,6 +222,9 @@ func GenConfig(prop, tier string, seed uint64) Config {
 	case "C16":
 		c.RichLabels = true
 		c.NSeries = r.Range(4, 12)
+		if r.Chance(0.25) {
+			c.NSeries = r.Range(30, 70) // many values of one label (postings offset table sampling in blocks)
+		}
 	case "C18":
 		c.RichLabels = true
 		c.NSeries = r.Range(4, 12)
